@@ -152,6 +152,33 @@ Proof.
 Qed.
 Print Assumptions C12_cache_transparent_refuted.
 
+(* the class of F-C12b is exactly: wherever the cache disagrees with the current sources, the
+   package is served from a valid FAILED entry *)
+Theorem C12_stale_failed_class : forall c w,
+  stale_failed_onlyb c w = true <->
+  forall p, In p (w_pkgs w) -> pkg_agrees c w p = false ->
+    exists q e, find_pkg (w_pkgs w) (p_nv p) = Some q /\ cache_hit (Some c) w q = Some e /\ failed_entry e = true.
+Proof. exact stale_failed_only_spec. Qed.
+Print Assumptions C12_stale_failed_class.
+
+(* a SUCCESSFUL entry that lacks a dependency (diamond: the dependency was first met through
+   another package) is outside every known class: package 2's entry does not list package 3, the
+   root no longer reaches 3 through package 1, so 3 is not handled and module 31 gets no output *)
+Definition w_diamond : world :=
+  {| w_pkgs := [ {| p_nv := 2; p_key := 2; p_entry := [21]; p_modules := [(21, OOk 1)]; p_deps := [3] |};
+                 {| p_nv := 3; p_key := 3; p_entry := [31]; p_modules := [(31, OOk 2)]; p_deps := [] |} ];
+     w_top := [2]; w_hashes := [(21, 1); (31, 1)]; w_js := [21; 31]; w_first := true |}.
+Definition c_lacking : cache := [(2, {| ce_deps := []; ce_modules := [(21, CInfo 1 1)] |})].
+
+Example C12_missing_dependency_edge_is_not_a_known_class :
+  cache_soundb c_lacking w_diamond = false
+  /\ stale_failed_onlyb c_lacking w_diamond = false
+  /\ handled (Some c_lacking) w_diamond = [2]
+  /\ handled None w_diamond = [2; 3]
+  /\ out_of (slot_of w_diamond (final_result (Some c_lacking) w_diamond) 31) = None
+  /\ out_of (slot_of w_diamond (final_result None w_diamond) 31) = Some 2.
+Proof. repeat split; vm_compute; reflexivity. Qed.
+
 (* ---- non-vacuity: a warm cache on unchanged sources is sound and transparent; a cache made
    stale by an edit of a recorded module is sound too (the entry no longer validates) ---- *)
 Definition w_ok : world :=
